@@ -1,5 +1,6 @@
 import PyCraft.Props.C10
 import PyCraft.Props.C10Wire
+import PyCraft.Props.Session
 #print axioms PyCraft.C10.enc_reply_then_encrypted
 #print axioms PyCraft.C10.threshold_applies_after
 #print axioms PyCraft.C10.threshold_none_before
@@ -16,3 +17,11 @@ import PyCraft.Props.C10Wire
 #print axioms PyCraft.C10Wire.outbox_packets_writable
 #print axioms PyCraft.C10Wire.parts_read_by_readAll
 #print axioms PyCraft.C10Wire.wrong_switch_point_detected
+#print axioms PyCraft.SessionProps.session_bytes_decompose
+#print axioms PyCraft.SessionProps.server_recovers_session
+#print axioms PyCraft.SessionProps.layer_servers_agree
+#print axioms PyCraft.SessionProps.cipher_continues_across_login_to_play
+#print axioms PyCraft.SessionProps.cipher_restart_detected
+#print axioms PyCraft.SessionProps.threshold_continues_into_play
+#print axioms PyCraft.SessionProps.server_flag_only_switched_on
+#print axioms PyCraft.SessionProps.threshold_forgotten_detected
